@@ -1140,6 +1140,8 @@ fn main() {
     let scenario = args.get(1).map(|s| s.as_str()).unwrap_or("blocking");
     let seed: u64 = args.get(2).and_then(|s| s.parse().ok()).unwrap_or(1);
     match scenario {
+        // build / interpreter smoke test of the engine: runs nothing of rsactor
+        "noop" => {}
         "ids" => scenario_ids(seed),
         "blocking" => scenario_blocking(seed),
         "timeout" => scenario_timeout(seed),
